@@ -10,6 +10,7 @@
 #include "monitor.hpp"
 
 #include <fcntl.h>
+#include <signal.h>
 #include <unistd.h>
 
 #include <cinttypes>
@@ -88,6 +89,13 @@ struct CaseResult
     std::string              cfg_text;
 };
 
+static int         g_case_timeout_s = 60; // wall-clock watchdog per case: a call that never returns ends the worker (exit 98)
+static void        on_case_alarm(int)
+{
+    static const char msg[] = "HANG: a case exceeded its wall-clock budget (a library call did not return)\n";
+    if (write(2, msg, sizeof msg - 1) < 0) {}
+    _exit(98);
+}
 static int         g_journal_fd = -1;
 static uint64_t    g_case_index = 0;
 static void        journal_begin(const std::string& cfg_text, const std::string& mode, uint64_t case_seed)
@@ -219,6 +227,7 @@ struct Runner
     std::unordered_set<uint64_t> nontrivial;
     uint64_t  cases_run{0}, cases_viol{0}, cases_inconclusive{0}, destroyed_nonempty{0};
     std::map<std::string, uint64_t> tag_counts;
+    std::map<std::string, int>      kept_per_prop;
     std::map<std::string, uint64_t> profile_cases;
     uint64_t  rr_selftest_fail{0};
 
@@ -291,14 +300,21 @@ struct Runner
             // keys to skip from the follower's view *after* this op, i.e. run the monitor in two stages.
             Violation v;
             bool      ok = true;
-            if (!do_audit)
+            // stage 1: op + probes; stage 2 (if this step has an audit): audit against the committed candidates
+            ok = mon.step(op, res, pr, nullptr, now, v);
+            if (!ok)
             {
-                ok = mon.step(op, res, pr, nullptr, now, v);
+                // explain again with an on-demand audit: what do lookups actually find?
+                journal_line("# audit");
+                run_audit(cache.get(), cfg, &mon.state(), plan.audit_skip_u && kind_is_ttllru(cfg.kind), rows);
+                Violation v2;
+                mon.explain_with_audit(op, res, pr, rows, now, v2);
+                if (!v2.tags.empty())
+                    v = v2;
+                line += "   audit=" + audit_to_text(rows);
             }
-            else
+            else if (do_audit)
             {
-                // stage 1: op + probes; stage 2: audit against the committed candidates
-                ok = mon.step(op, res, pr, nullptr, now, v);
                 if (ok && !mon.inconclusive)
                 {
                     bool skip = plan.audit_skip_u && kind_is_ttllru(cfg.kind);
@@ -480,8 +496,20 @@ struct Runner
             ++cases_viol;
             for (auto& t : cr.viol.tags)
                 ++tag_counts[t];
-            if ((int)violations.size() < opt.max_viol)
+            // keep witnesses per property so that a frequent clause cannot crowd out a rare one
+            bool keep = false;
+            for (auto& t : cr.viol.tags)
+            {
+                std::string prop = t.substr(0, t.find('.'));
+                if (kept_per_prop[prop] < 3)
+                    keep = true;
+            }
+            if (keep && (int)violations.size() < opt.max_viol * 6)
+            {
+                for (auto& t : cr.viol.tags)
+                    ++kept_per_prop[t.substr(0, t.find('.'))];
                 violations.push_back(cr);
+            }
         }
         else if ((int)samples.size() < opt.samples && nt)
             samples.push_back(cr);
@@ -555,6 +583,8 @@ int main(int argc, char** argv)
             opt.start = std::strtoull(nxt().c_str(), nullptr, 10);
         else if (a == "--noinsr")
             opt.noinsr = true;
+        else if (a == "--case-timeout")
+            g_case_timeout_s = std::atoi(nxt().c_str());
         else if (a == "--typesets")
             opt.typesets = std::atoi(nxt().c_str());
         else if (a == "--ts")
@@ -592,6 +622,7 @@ int main(int argc, char** argv)
             return 2;
         }
     }
+    signal(SIGALRM, on_case_alarm);
     vclock::selftest();
     if (opt.kind < 0)
     {
@@ -615,12 +646,14 @@ int main(int argc, char** argv)
         if (i < opt.start)
             continue;
         g_case_index  = i;
+        alarm((unsigned)g_case_timeout_s);
         uint64_t   cs = mix(base, i);
         CaseResult cr;
         if (opt.mode == "model")
             cr = R.run_model_case(cs, nullptr, nullptr, false);
         else
             cr = run_twin_case(R, cs, opt.mode);
+        alarm(0);
         R.account(cr);
         if (cr.violated && opt.verbose)
             std::fprintf(stderr, "violation in case %" PRIu64 " (%s): %s\n", i, cr.viol.tags.empty() ? "?" : cr.viol.tags[0].c_str(), cr.viol.detail.c_str());
